@@ -377,6 +377,10 @@ pub fn run(args: &Args) -> i32 {
     let mut rng = Rng::new(args.seed ^ 0x15_0A);
     let obs = jsonrt::fixed_tests(&mut rng, &mut stats, args.tier.pick(300, 5000));
     report.note("json_observations_not_asserted", obs);
+    report.note(
+        "json_blockview_note",
+        json!("From<json::BlockView> for core::BlockView goes through packed::Block::into_view(), which is documented to reset the header roots; the view round trip is therefore asserted on header-consistent blocks (packed Block <-> json::Block is asserted on all blocks)"),
+    );
 
     // evidence
     let types_seen = stats.per_type.len();
